@@ -135,6 +135,18 @@ func ComputeLedger(ds []Directive, f LedgerFlags) (*Ledger, error) {
 	if !ok {
 		return nil, errEmptyAccrual
 	}
+	var halves []Half
+	for _, t := range ts {
+		halves = append(halves, t.Halves()...)
+	}
+	min, max, _ := JournalPeriod(ds, ts)
+	return ComputeLedgerFromHalves(halves, min, max, f)
+}
+
+// ComputeLedgerFromHalves is the report pipeline on signed amounts (quantities,
+// or values for a valued report): window, partition, period closing, filters,
+// mapping, cells, totals.
+func ComputeLedgerFromHalves(all []Half, min, max Day, f LedgerFlags) (*Ledger, error) {
 	accRes, err := compileAll(f.AccountRes)
 	if err != nil {
 		return nil, err
@@ -155,7 +167,6 @@ func ComputeLedger(ds []Directive, f LedgerFlags) (*Ledger, error) {
 		}
 		mapRes = append(mapRes, r)
 	}
-	min, max, _ := JournalPeriod(ds, ts)
 	start, end := min, max
 	if f.From != nil && *f.From > start {
 		start = *f.From
@@ -171,18 +182,14 @@ func ComputeLedger(ds []Directive, f LedgerFlags) (*Ledger, error) {
 	n := len(periods)
 	// in-window halves in (date, arrival) order
 	var halves []Half
-	seq := 0
-	for _, t := range ts {
-		if t.Date < start || t.Date > end {
+	for i, h := range all {
+		if h.Date < start || h.Date > end {
 			continue
 		}
-		for _, h := range t.Halves() {
-			h.Seq = seq
-			seq++
-			halves = append(halves, h)
-		}
-		L.InWindowBookings += len(t.Postings)
+		h.Seq = i
+		halves = append(halves, h)
 	}
+	L.InWindowBookings = len(halves) / 2
 	sort.SliceStable(halves, func(i, j int) bool { return halves[i].Date < halves[j].Date })
 	// period closing: at the start of every shown period the running total of each
 	// income/expense account is booked over to Equity:Equity
